@@ -24,6 +24,7 @@ func init() {
 }
 
 func runC14(c *eng.Ctx) {
+	seekSkipsEmptySlots(c)
 	p := c.P
 	deltaWidthCoversEveryDelta(c)
 	fixedOffsetReadsItsOwnBytes(c)
